@@ -15,15 +15,15 @@ CHECKS = {
    ref="DESIGN.md §6 C01, §3", note=MODEL),
  "C03": dict(
    technique="stateful property-based testing (rapid): round-trip oracle url.Parse(u.Href()) == u after the parse and after every setter of a generated history; exemption computed from the reference model; bounded-exhaustive enumeration of all 2-step (quick) / 3-step (thorough) setter histories over a 51-entry value table x 15 starts; native fuzzing",
-   text="Generated start URLs and setter histories; after every step the serialization must parse again to the identical URL (Href + 9 getters). The statement's exception is computed per state from the reference model (dropped only where the standard's own state does not survive serialize-then-parse), not enumerated.",
+   text="Generated start URLs and setter histories (a step in twelve continues on a Clone of the URL: a copy is a reachable URL); after every step the serialization must parse again to the identical URL (Href + 9 getters). The statement's exception is computed per state from the reference model (dropped only where the standard's own state does not survive serialize-then-parse), not enumerated.",
    ref="DESIGN.md §6 C03, §7.9", note="trusted base: url.Parse itself as the inverse (round trip), the reference model for the exemption only, rapid"),
  "C04": dict(
    technique="stateful property-based testing (rapid): validity predicate and getter-composition invariant evaluated after every step of generated parse/setter/resolve histories; bounded-exhaustive enumeration of all 2-/3-step setter histories (+ a resolution) over a 51-entry value table x 15 starts; native fuzzing",
-   text="Generated start URLs followed by setter and resolve steps; after every step a validity predicate written from the statement (scheme syntax, host/path/credentials/port structure, printable ASCII, percent-encode-set and forbidden-code-point freedom, canonical IPv6) and the composition of Href from the individual getters are evaluated.",
+   text="Generated start URLs followed by setter, resolve and continue-on-a-Clone steps; after every step a validity predicate written from the statement (scheme syntax, host/path/credentials/port structure, printable ASCII, percent-encode-set and forbidden-code-point freedom, canonical IPv6) and the composition of Href from the individual getters are evaluated.",
    ref="DESIGN.md §6 C04", note="trusted base: the predicate in harness/props/c04.go (written from the statement and the standard's set definitions), rapid"),
  "C05": dict(
    technique="stateful property-based differential testing (rapid): lock-step comparison of generated setter histories against the reference model's API setter algorithms; bounded-exhaustive enumeration of single setter calls (all values of up to 2/3 critical tokens x 17 starts x 9 setters) and of all 2-/3-step setter histories; native fuzzing",
-   text="Generated start URLs and 1..8 (setter, value) steps applied in lock step to the implementation and to the reference model's setters; Href and all nine getters are compared after every step, so partial application and rejection are checked exactly. The evidence histogram shows every setter outcome (guard, failure state, override early return) and all 81 ordered setter pairs.",
+   text="Generated start URLs and 1..8 (setter, value) steps (a step in twelve continues on a Clone of the implementation's URL) applied in lock step to the implementation and to the reference model's setters; Href and all nine getters are compared after every step, so partial application and rejection are checked exactly. The evidence histogram shows every setter outcome (guard, failure state, override early return) and all 81 ordered setter pairs.",
    ref="DESIGN.md §6 C05, §3", note=MODEL),
  "C19": dict(
    technique="stateful property-based testing (rapid): derived accessors recomputed from primary getters after every step of generated parse/setter/resolve/clone histories; bounded-exhaustive enumeration of all 2-/3-step setter histories followed by Clone and a resolution; native fuzzing",
@@ -47,7 +47,7 @@ CHECKS = {
    ref="DESIGN.md §6 C09", note="trusted base: the spelling construction in harness/props/c09.go; UTS #46 mapping taken as given; reference model only for the ends-in-a-number sub-case"),
  "C10": dict(
    technique="exhaustive enumeration of all code points x named sets against tables from the standard, plus property-based testing (rapid) of copy-on-derive programs and of the encode/decode string laws",
-   text="Membership of all 0x110000 code points and all 256 bytes in the six named sets is compared exhaustively with tables written from the standard, and every ASCII code point is pushed through every URL component (special and non-special) against the reference model. Random Set/Clear derivation programs must leave every earlier set and all named sets unchanged and differ from the parent exactly on the given bytes. Random strings x named and derived sets check the encode/decode laws of the statement.",
+   text="Membership of all 0x110000 code points and all 256 bytes in the six named sets is compared exhaustively with tables written from the standard, and every ASCII code point is pushed through every URL component (special and non-special) against the reference model. Random Set/Clear derivation programs must leave every earlier set and all named sets unchanged and differ from the parent exactly on the given bytes. Random strings x named and derived sets check the encode/decode laws of the statement; the decode law is also observed at the host component of a lax-host parser, which has an encoder of its own.",
    ref="DESIGN.md §6 C10", note="trusted base: the set predicates in harness/spec/encode.go (typed from the standard), the model encoder in harness/props/c10.go, rapid"),
  "C11": dict(
    technique="stateful property-based testing (rapid) against a list model with the standard's semantics, differential testing against a reference application/x-www-form-urlencoded parser, and a serialize-parse round trip; bounded-exhaustive enumeration of all queries of up to 4/6 critical tokens; native fuzzing",
@@ -71,11 +71,11 @@ CHECKS = {
    ref="DESIGN.md §6 C16", note=MODEL),
  "C17": dict(
    technique="property-based testing (rapid) of the idempotence law p(p(x)) = p(x) over generated profiles (predefined and composed from the canonicalizer's options) and inputs (arbitrary inputs; grammar-generated web URLs in random spellings)",
-   text="For WhatWg, WhatWgSortQuery and random compositions of the six canonicalizer options any generated input, and for GoogleSafeBrowsing and Semantic every URL of the ordinary-web-URL grammar in a random spelling (nested encodings, dot segments, case, ports, whitespace), is canonicalized twice; the second result must parse and equal the first.",
+   text="For WhatWg, WhatWgSortQuery and random compositions of the six canonicalizer options any generated input, and for GoogleSafeBrowsing and Semantic every URL of the ordinary-web-URL grammar in a random spelling (nested encodings, dot segments, case, ports, whitespace), is canonicalized twice; the second result must parse and equal the first. Before each call the same profile canonicalizes the same text under a non-special scheme (results must not depend on earlier calls).",
    ref="DESIGN.md §6 C17, §7.7", note="trusted base: the grammar and renderer in harness/props/web.go, rapid; known findings attributed by exact-result or narrow classifiers (c17.go)"),
  "C18": dict(
    technique="property-based metamorphic testing (rapid): one abstract web URL rendered in two independently drawn equivalent spellings (and a plain one) must canonicalize to one string under generated profiles",
-   text="An abstract ordinary web URL is rendered twice with independent random choices among exactly the variations the statement lists, per profile class; both canonical strings must be equal and equal to the canonical form of the plain rendering, which ties the class to one representative.",
+   text="An abstract ordinary web URL is rendered twice with independent random choices among exactly the variations the statement lists, per profile class; both canonical strings must be equal and equal to the canonical form of the plain rendering, which ties the class to one representative. Before each call the same profile canonicalizes the same text under a non-special scheme (results must not depend on earlier calls).",
    ref="DESIGN.md §6 C18", note="trusted base: the grammar and renderer in harness/props/web.go, rapid; findings KF-C18-empty-fragment and KF-C18-nested-dots attributed by counterfactual classifiers"),
  "C02": dict(
    technique="stateful property-based testing / robustness fuzzing (rapid): generated configurations x generated API programs over a register file of URLs, recover() around every step, (nil, nil) contract, hang watchdog confirmed in a fresh process",
